@@ -1060,6 +1060,24 @@ impl G<'_> {
         }
     }
 
+    /// the application polls until nothing is reported
+    fn drain_events(&mut self) {
+        for _ in 0..32 {
+            let Some(v) = self.op("poll") else { return };
+            let mut it = v.result.split(' ');
+            match it.next() {
+                Some("Stopped") => {
+                    let id: u64 = it.next().and_then(|x| x.parse().ok()).unwrap_or(0);
+                    if !self.stopped_events.insert(id) {
+                        self.fail("C11-stopped-twice", format!("second Stopped for {id}"));
+                    }
+                }
+                Some("none") => break,
+                _ => {}
+            }
+        }
+    }
+
     fn step(&mut self, zero_rtt_phase: bool) {
         let k = self.rng.below(if zero_rtt_phase { 45 } else { 100 });
         match k {
@@ -1127,7 +1145,23 @@ impl G<'_> {
             62..=63 => {
                 let id = if self.rng.chance(4, 5) { self.pick_send_id() } else { self.any_id() };
                 let code = self.rng.below(50);
+                // crossing orders (C11 "Stopped once per stopped stream"): the application abandons or finishes the half
+                // just before the peer's STOP_SENDING arrives (RESET_STREAM / FIN still unacknowledged)
+                match self.rng.below(8) {
+                    0 | 1 => {
+                        let c2 = self.rng.below(50);
+                        self.op(&format!("reset {id} {c2}"));
+                    }
+                    2 => {
+                        self.op(&format!("finish {id}"));
+                    }
+                    _ => {}
+                }
                 self.op(&format!("stopsend {id} {code}"));
+                // ... and often the application then polls until nothing is reported (the point the oracle judges)
+                if self.rng.chance(1, 3) {
+                    self.drain_events();
+                }
             }
             64..=66 => {
                 let n = match self.rng.below(4) {
@@ -1512,6 +1546,33 @@ impl G<'_> {
                     self.fail("C06-duplicate-reset-not-noop", format!("rst 0 1 9 twice: second answer {}", v.result));
                 }
             }
+        }
+        // stop-crossing-reset: the application resets a sending half, the peer's STOP_SENDING arrives before the
+        // RESET_STREAM is acknowledged; the half reports the peer's code, so the application is owed one Stopped
+        // (judged by the history ghost when poll reports `none`); the same on a half that is finished but unacknowledged,
+        // on the sending half of a stream the peer opened, and with a duplicate STOP_SENDING
+        if self.start(1, 2, 2, 1000, 1000, 1000) {
+            self.apply_params([100, 100, 100, 4, 4, 1000]);
+            self.open_dir(1);
+            self.op("write 3 10");
+            self.op("transmit 1200 1");
+            self.op("reset 3 7");
+            self.op("stopsend 3 42");
+            self.op("stopped 3");
+            self.drain_events();
+            self.open_dir(0);
+            self.op("write 1 5");
+            self.op("finish 1");
+            self.op("stopsend 1 9");
+            self.op("stopsend 1 10");
+            self.drain_events();
+            self.op("stream 0 0 4 0");
+            self.op("reset 0 3");
+            self.op("stopsend 0 11");
+            self.drain_events();
+            self.op("rstack 3");
+            self.op("stopsend 3 5");
+            self.drain_events();
         }
         // F15: 59 bytes received, reset with final size 59 (credited), then stopped (credited again)
         if self.start(1, 2, 2, 100, 59, 2002) {
